@@ -61,7 +61,9 @@ def scenarios(tier, seed=0):
         for co2 in (None, {"table": [[1990, 350.0], [2001, 380.0], [2002, 420.0], [2003, 480.0], [2004, 560.0], [2050, 900.0]]}, {"constant_conc": True, "current_concentration": 600.0},
                     # a plateau: consecutive seasons with exactly the same concentration, different from the first simulated year
                     {"table": [[1990, 340.0], [2001, 340.0], [2002, 550.0], [2003, 550.0], [2004, 550.0], [2050, 550.0]]},
-                    {"table": [[1990, 700.0], [2001, 700.0], [2002, 400.0], [2010, 400.0]]}):
+                    {"table": [[1990, 700.0], [2001, 700.0], [2002, 400.0], [2010, 400.0]]},
+                    # not annual over the simulated years: every season's concentration is an interpolated one
+                    {"table": [[1990, 340.0], [2000, 365.0], [2005, 450.0], [2012, 600.0]]}):
             for start in ("2001/06/15", "2001/05/01", "2001/03/10"):
                 spec = A.catalogue_spec(name, word="warm", irr="smt", start=start, end="2004/04/20", co2=co2)
                 yield {"kind": "spec", "spec": spec, "label": ["co2-years", name, bool(co2), start]}
